@@ -224,7 +224,52 @@ def run_job(job, io):
                 elif route == 'ctor_tuple' and src is not None:
                     spec = optree.treespec_tuple([src.spec, src.spec], none_is_leaf=src.spec.none_is_leaf, namespace=ns)
                 elif route == 'ctor_dict' and src is not None:
-                    spec = optree.treespec_dict({'z': src.spec, 'a': src.spec}, none_is_leaf=src.spec.none_is_leaf, namespace=ns)
+                    kwc = {'none_is_leaf': src.spec.none_is_leaf, 'namespace': ns}
+                    which_ctor = tape.draw(7, 'ctor-kind')
+                    sp0 = src.spec
+                    if which_ctor == 0:
+                        arg = {'z': sp0, 'a': sp0}
+                        snap = list(arg.items())
+                        spec = optree.treespec_dict(arg, c=sp0, **kwc)
+                        now = list(arg.items())
+                    elif which_ctor == 1:
+                        arg = OrderedDict([('z', sp0), ('a', sp0)])
+                        snap = list(arg.items())
+                        spec = optree.treespec_ordereddict(arg, c=sp0, **kwc)
+                        now = list(arg.items())
+                    elif which_ctor == 2:
+                        arg = {'z': sp0, 'a': sp0}
+                        snap = list(arg.items())
+                        spec = optree.treespec_defaultdict(int, arg, c=sp0, **kwc)
+                        now = list(arg.items())
+                    elif which_ctor == 3:
+                        arg = [sp0, sp0]
+                        snap = list(arg)
+                        spec = optree.treespec_list(arg, **kwc)
+                        now = list(arg)
+                    elif which_ctor == 4:
+                        arg = deque([sp0, sp0], maxlen=5)
+                        snap = (list(arg), arg.maxlen)
+                        spec = optree.treespec_deque(arg, **kwc)
+                        now = (list(arg), arg.maxlen)
+                    elif which_ctor == 5:
+                        arg = defaultdict(list, {'z': sp0, 'a': sp0})
+                        snap = (list(arg.items()), arg.default_factory)
+                        spec = optree.treespec_from_collection(arg, **kwc)
+                        now = (list(arg.items()), arg.default_factory)
+                    else:
+                        arg = {'z': sp0, 'a': sp0}
+                        snap = list(arg.items())
+                        spec = optree.treespec_dict(arg, **kwc)
+                        now = list(arg.items())
+                    detail = 'ctor_dict/%d' % which_ctor
+                    def _flat(x):
+                        items = x if isinstance(x, list) else x[0]
+                        extra = None if isinstance(x, list) else x[1]
+                        return [(it[0], id(it[1])) if isinstance(it, tuple) else id(it) for it in items], extra
+                    if _flat(snap) != _flat(now):
+                        viol('input-mutated', site, 'a treespec constructor (variant %d) changed the collection it was given: %r -> %r' % (which_ctor, snap, now))
+                    arg = snap = now = sp0 = None
                 elif route == 'from_collection' and src is not None:
                     col = [src.spec, {'z': src.spec, 'k': src.spec}, deque([src.spec], maxlen=2)]
                     spec = optree.treespec_from_collection(col, none_is_leaf=src.spec.none_is_leaf, namespace=ns)
